@@ -180,7 +180,8 @@ func (d *dataTracer) tracePrefixLocked(data []byte) (int, bool) {
 		d.env = nil
 	} else if !d.isRequest && (d.env.Flags&0x82) != 0 {
 		// This is a response end-stream message. Capture the contents.
-		d.endStream = bytes.NewBuffer(make([]byte, 0, d.env.Len))
+		// (The declared length comes from the peer, so don't pre-allocate it.)
+		d.endStream = &bytes.Buffer{}
 	}
 	return need, true
 }
